@@ -206,6 +206,23 @@ def generate(rng, tier):
         for law in ("sym", "triangle", "perm", "BleW"):
             cases.append(_mono_case(rng, law, "B", n, n - 17))
         cases.append(_mono_case(rng, "empty", "W", n, 0))
+    # tiny decimal-grid pairs, one the symmetric widening of the other: the bottleneck value is a
+    # half-persistence difference up to one rounding; a wrong rounding direction shows on a few percent
+    for _ in range(120 if tier == "quick" else 1200):
+        law = rng.choice(["BleW", "BleW", "translate", "scale", "sym"])
+        c = _mono_case(rng, law, "B", 1, 1)
+        b = rng.randint(-30, 60) / 10.0
+        S = [[b, round(b + rng.randint(1, 40) / 10.0, 10)]]
+        e = rng.choice([0.1, 0.05, 0.2, 0.3, 0.15, 0.25, 0.4])
+        T = [[S[0][0] - e, S[0][1] + e]]
+        if rng.random() < 0.5:
+            S, T = T, S
+        c["S"], c["T"], c["fam"] = S, T, "decimal-widened"
+        if law == "translate":
+            c["c"] = rng.choice([1.0, 0.1, 0.3, 2.5, -0.7])
+        if law == "scale":
+            c["c"] = rng.choice([0.5, 2.0, 3.0, 0.1, 10.0])
+        cases.append(c)
     nb = 60 if tier == "quick" else 600
     for _ in range(nb):
         cases.append(_brute_case(rng, "B"))
